@@ -575,6 +575,10 @@ for _p in ("C01", "C04", "C07", "C11"):
     CLAIMED[_p]["text"] += _R9_WBRIDGE3A
 
 
+CLAIMED["C08"]["text"] += " Round 9 (fix9): SFM_RDWR handles on EXISTING files of every format that opens the mode, block-packed containers included (vlib/rdwrexist.py: idle open/close and append, judged by Sf.Abs from the reference read; Sf.SdsRdwr: an SDS file keeps its sample count, rdwr_idle_keeps_file / rdwr_append_count, old rule refuted); setter commands issued after the handle has grown the file (vlib/setcmds.py; Sf.IeeeReinit session_frames)."
+CLAIMED["C04"]["text"] += " Round 9 (fix9): conversion / header setters (SFC_TEST_IEEE_FLOAT_REPLACE, clipping, norm, scale, peak, auto header, ...) between the writes of an SFM_WRITE handle of every sample-granular format (vlib/setcmds.py); lean/SfProps/C04IeeeReinit.lean session_frames (any sequence of writes and commands), old rule refuted."
+
+
 def main():
     checks = []
     for p in PROPS:
